@@ -594,17 +594,22 @@ class FileCache:
         # See if we need to do any cache eviction because the cache has become
         # to big.
         if not len(cache_misses) == 0:
-            self._cache_eviction()
+            # never evict the files we are about to return, whatever their
+            # time stamps say (ties, coarse or stepping clocks).
+            self._cache_eviction(
+                keep=[os.path.basename(filepath) for filepath in filepaths]
+            )
 
         return filepaths
 
-    def _cache_eviction(self) -> bool:
+    def _cache_eviction(self, keep: Optional[List[str]] = None) -> bool:
         """
         Simple cache eviction policy. If the cache exceeds the maximum size
         remove data from the cache based on whichever file was interacted with
         the longest time ago. Evict files until we are below the acceptable
         cache size.
 
+        :param keep: hashes (cache file names) that must not be evicted.
         :return: True if eviction occured, False otherwise.
         """
 
@@ -615,6 +620,9 @@ class FileCache:
         # Get access/modified times for all the files in cache
         modified = []
         for _hash, fp in self._entries.items():
+            if keep is not None and _hash in keep:
+                continue
+
             # From my brief reading, access time is not always reliable,
             # hence I use whatever the latest time set is for modified or
             # access time as an indicator of when we last interacted with
@@ -635,7 +643,9 @@ class FileCache:
 
         # Delete files one by one as long as the cache_size exceeds the max
         # size.
-        while (_size := self._size()) > self.config.max_size_bytes:
+        while (
+            _size := self._size()
+        ) > self.config.max_size_bytes and files_in_cache:
             self._cache_evictions += 1
             logger.debug(
                 f"Cache exceeds limits: {_size} bytes, max size: "
